@@ -63,11 +63,11 @@ theorem g_to_pipe {l : Local} {Tp : Tape} (hbase : topState base = b) {s95 ts : 
     Tot (engineLoop np (f + 2)
       { stack := ⟨13, tr, .nodes (c.nodes off)⟩ :: base, la := some (ts, .tok term), nlShifted := nl,
         consumed := cons }) l Tp P := by
-  obtain ⟨nl', pl, hlast, hpl, hpl2⟩ := gnodes_last (off + c.lead.length) c.first c.items
+  obtain ⟨nl', pl, hlast, hpl, hpl2⟩ := gnodes_lastE (off + c.lead.length) c.first c.items
   refine Tot.loop_step ?_
   refine R_reduce Tab.d13 rfl h13 Tab.p58 rfl (by rw [hbase]; exact g66) Tab.f58 ?_
   refine act_commandG (nh := c.first.node (off + c.lead.length)) rfl hlast
-    (Item.nodePos_node _ _) hpl ?_
+    (Elem.nodePos_node _ _) hpl ?_
   simp only [Bool.false_eq_true, if_false]
   refine Tot.loop_step ?_
   refine R_reduce Tab.d11 rfl h11 Tab.p163 rfl (by rw [hbase]; exact g95) Tab.f163 ?_
@@ -187,8 +187,8 @@ theorem pipe_fwdG (hbase : topState base = b) (hB : BaseOK b g93) (hO : OutT tsO
     refine Tot.loop_step ?_
     refine R_shift (sOf_dflt pend) (sOf_ne0 pend) (sOf_bar pend) ?_
     refine nl_first nlg64 hc hl hso hcurh hL1 hb hlen ?_
-    intro t2 cons1
-    refine g_run13 (b := 136) rfl baseG136.w hT' hts' hlen hR hb1 hc (hl.afterTok hcurh _) rfl hLw
+    intro t2 cons1 l1 hl1 hcur1
+    refine g_run13 (b := 136) rfl baseG136 hT' hts' hlen hR hb1 hc hl1 hcur1 hLw
       hfetch' rfl ?_
     intro tr' nl' cons' l' hl' hcur'
     refine g_to_pipe (b := 136) rfl h13 h11 Tab.g136_66 Tab.g136_95 ?_
@@ -213,7 +213,7 @@ theorem pipe_fwdG (hbase : topState base = b) (hB : BaseOK b g93) (hO : OutT tsO
         Token.endlexpos, Token.valueStr] using this
 
 /-- **one pipeline of general commands as an element of a list**, its first token already shifted -/
-theorem gpe_run (hbase : topState base = b) (hB : BaseOK b g93) (hO : OutT tsO) (hOG : TermG tsO)
+theorem gpe_run (hbase : topState base = b) (hB : BaseOK b g93) (hBG : BaseG b) (hO : OutT tsO) (hOG : TermG tsO)
     (htsO : symOfTok termO = tsO) (hhO : histOK termO = true) (hsO : startOK termO = true)
     (hb0 : endChar b0 = true) (hlen : L.length + 2 ≤ 1073741824)
     {e : GPE} {off : Nat} {l : Local} {fuel f' nl : Nat} {cons : List Nat} {tr : Tree}
@@ -228,7 +228,7 @@ theorem gpe_run (hbase : topState base = b) (hB : BaseOK b g93) (hO : OutT tsO) 
     Tot (engineLoop np fuel
       { stack := ⟨e.c1.first.shB, tr, .tok (e.c1.first.tok (off + e.c1.lead.length))⟩ :: base,
         la := none, nlShifted := nl, consumed := cons }) l
-      ⟨L, off + e.c1.lead.length + e.c1.first.text.length, adn⟩ P := by
+      ⟨L, off + e.c1.lead.length + e.c1.first.tlen, adn⟩ P := by
   obtain ⟨c1, cs⟩ := e
   have hLc' : L.drop off = c1.text ++ (gprestText cs ++ X) := by simpa [GPE.text] using hLc
   have hLend := GCmd.drop_text_end hLc'
@@ -242,7 +242,7 @@ theorem gpe_run (hbase : topState base = b) (hB : BaseOK b g93) (hO : OutT tsO) 
   have e1 : f' + GPE.cost ⟨c1, cs⟩ = ((f' + gpcostB 0 cs) + 2) + (c1.cost + 2) := by
     simp only [GPE.cost]; omega
   rw [e1]
-  refine g_run13 hbase hB.w hT' hts' hlen hR1 hb1 he.1 hl hcur hLw hfetch' rfl ?_
+  refine g_run13 hbase hBG hT' hts' hlen hR1 hb1 he.1 hl hcur hLw hfetch' rfl ?_
   intro tr' nl' cons' l' hl' hcur'
   refine g_to_pipe hbase h13 h11 hB.g66 hB.g95 ?_
   intro tr''
